@@ -108,7 +108,9 @@ def drive(rec, workdir, idx):
     times = [(x["t"] / 10 if tmode == 0 else (x["t"] if tmode == 1 else np.float64(x["t"]) * 0.25)) for x in rec["sim"]]
     path = os.path.join(workdir, f"t{os.getpid()}.h5")
     jpath = os.path.join(workdir, f"t{os.getpid()}.json")
-    source = {"none": None, "index": 1, "callable": (lambda fields: fields[1])}[src]
+    # "index": the field is the second OR (every other history) the FIRST member of the collection -- index 0 is an index
+    first = src == "index" and idx % 2 == 0
+    source = {"none": None, "index": 0 if first else 1, "callable": (lambda fields: fields[1])}[src]
     # the way a solver works: ONE state object, updated in place between the interrupts, and a callable source that
     # derives a new field from it at every call
     persistent = src == "callable" and idx % 2 == 1 and len(frames) > 0
@@ -123,7 +125,7 @@ def drive(rec, workdir, idx):
             holder[1].data[...] = f.data
             return holder
         other = ScalarField(f.grid, 0.25)
-        return FieldCollection([other, f])
+        return FieldCollection([f, other] if first else [other, f])
 
     tr = DropletTracker(1, filename=path, source=source, threshold=st["threshold"], minimal_radius=st["minimal_radius"],
                         refine=st["refine"], refine_args=st["refine_args"], perturbation_modes=st["modes"])
